@@ -146,6 +146,13 @@ def run_unit(u):
             cfg = cfg_custom if use_custom else cfg_plain
         custom = dict(CUSTOM_TEXT) if use_custom else None
         custom_ast = CUSTOM_AST if use_custom else {}
+        if rng.random() < .15:
+            # an element made by the other kind of builder moved into this tree: the document decides the rules, not the element
+            import copy as _copy
+            how += '+graft'
+            cfg = _copy.copy(cfg)
+            cfg.names = list(cfg.names) + ['item', 'Item', 'ITEM', 'sub', 'DIV', 'div', 'input', 'P']
+            bump('grafted_trees')
         case0 = cases.Case(tops, how, ['doc'], nsmap=nsmap)
         if rng.random() < .2:
             # a detached subtree: its root element has no parent at all (closest/select/filter/match on a parentless root)
@@ -155,6 +162,14 @@ def run_unit(u):
         other = trees.build_api([E('div', {'class': ['x']}, [E('a', {'id': 'x'}), T('text', 'q'), E('b')])])
         for _s in range(2):
             ast = sels.gen_list(rng, rng.choice([1, 2, 2]), cfg)
+            if rng.random() < .08:
+                # the scope marker written *before* another flag-like pseudo-class of the same compound (and after one)
+                cx = rng.choice(ast)
+                comp0 = rng.choice([c for c in cx if isinstance(c, dict)])
+                mark = rng.choice([('scope',), ('amp',)])
+                other_ = rng.choice([('root',), ('empty',), ('root',)])
+                comp0['pseudos'] = ([mark, other_] if rng.random() < .7 else [other_, mark]) + [p for p in comp0['pseudos'] if p[0] not in ('scope', 'amp')]
+                bump('scope_then_flag_compounds')
             text = sels.render(ast)
             flags = sv.DEBUG if rng.random() < .15 else 0
             rec = Recorder()
